@@ -217,6 +217,10 @@ pub struct Report {
 
 const CHUNKS: usize = 32;
 
+fn slow_limit() -> u64 {
+    std::env::var("VERIF_SLOW_LIMIT").ok().and_then(|s| s.parse().ok()).unwrap_or(180)
+}
+
 pub fn worker_threads() -> usize {
     std::env::var("VERIF_THREADS")
         .ok()
@@ -279,10 +283,42 @@ impl Report {
         let seed = self.seed;
         let strict = self.strict;
         let trace = std::env::var("VERIF_TRACE").is_ok();
+        // slow-case monitor: a case that runs for minutes wedges the run; report it as
+        // inconclusive (exit 2) together with its tape, never as a violation
+        let current: Vec<Mutex<Option<(Instant, Vec<u16>)>>> = (0..CHUNKS).map(|_| Mutex::new(None)).collect();
+        let finished = AtomicBool::new(false);
+        let phase_name = phase.to_string();
 
         std::thread::scope(|s| {
+            s.spawn(|| {
+                let mut reported = false;
+                while !finished.load(Ordering::SeqCst) {
+                    std::thread::sleep(std::time::Duration::from_millis(500));
+                    for slot in current.iter() {
+                        let g = slot.lock().unwrap();
+                        if let Some((t0, tape)) = g.as_ref() {
+                            let secs = t0.elapsed().as_secs();
+                            if secs >= 20 && !reported {
+                                reported = true;
+                                let path = format!("{}/logs/slow-{}-{}.json", VERIF_DIR, id, phase_name);
+                                let _ = std::fs::create_dir_all(format!("{}/logs", VERIF_DIR));
+                                let _ = std::fs::write(&path, serde_json::to_string(&json!({"phase": phase_name, "tape": tape})).unwrap());
+                                eprintln!("SLOW-CASE property={} phase={} running {} s, tape in {}", id, phase_name, secs, path);
+                            }
+                            if secs >= slow_limit() {
+                                println!(
+                                    "INCONCLUSIVE: property={} phase={} one case ran for more than {} s (tape: {}/logs/slow-{}-{}.json)",
+                                    id, phase_name, secs, VERIF_DIR, id, phase_name
+                                );
+                                std::process::exit(2);
+                            }
+                        }
+                    }
+                }
+            });
+            let mut handles = vec![];
             for _ in 0..threads {
-                s.spawn(|| {
+                handles.push(s.spawn(|| {
                     crate::util::install_panic_hook();
                     loop {
                         let chunk = next_chunk.fetch_add(1, Ordering::SeqCst);
@@ -313,8 +349,11 @@ impl Report {
                                     serde_json::to_string(&tape).unwrap(),
                                 );
                             }
+                            *current[chunk].lock().unwrap() = Some((Instant::now(), tape.clone()));
                             let mut case = Case { stats: &mut stats, counting: true, kf, property: id, strict };
-                            if let Err(e) = f(&tape, &mut case) {
+                            let res = f(&tape, &mut case);
+                            *current[chunk].lock().unwrap() = None;
+                            if let Err(e) = res {
                                 fail = Some((chunk, tape, e));
                                 stop.store(true, Ordering::SeqCst);
                                 break;
@@ -327,8 +366,12 @@ impl Report {
                             g.1.push(x);
                         }
                     }
-                });
+                }));
             }
+            for h in handles {
+                let _ = h.join();
+            }
+            finished.store(true, Ordering::SeqCst);
         });
 
         let (stats, mut fails) = merged.into_inner().unwrap();
